@@ -575,7 +575,9 @@ def build_pipeline_inspection(
 
     # Initialize tracking data structures
     inspection_nodes: List[NodeInspection] = []
-    key_origin: Dict[str, int] = {}  # Maps context keys to the node that created them
+    # Maps context keys to the node that wrote them last (None = initial context)
+    key_origin: Dict[str, Optional[int]] = {}
+    required_context_keys: set[str] = set()  # keys the initial context must supply
     deleted_keys: set[str] = set()  # Tracks keys that have been deleted from context
     all_required_params: set[str] = set()  # All parameters required from context
     all_created_keys: set[str] = set()  # All keys created by any node
@@ -585,6 +587,7 @@ def build_pipeline_inspection(
     for index, node_cfg in enumerate(node_configs, start=1):
         node: Optional[_PipelineNode] = None
         node_errors: List[str] = []
+        deleted_at_entry = set(deleted_keys)  # keys gone before this node runs
         processor_ref = node_cfg.get("processor")
         processor_fqcn = _format_processor_reference(processor_ref)
 
@@ -732,6 +735,15 @@ def build_pipeline_inspection(
 
         all_required_params.update(required_params)
 
+        # Context-key flow follows execution order: a key this node reads from the
+        # context before any node has created it must come from the initial
+        # context, even if a later node creates a key of the same name. Such keys
+        # are recorded with origin ``None`` so later nodes resolve them as context.
+        for name in sorted(required_params):
+            if name not in key_origin:
+                required_context_keys.add(name)
+                key_origin[name] = None
+
         required_external_parameters: List[str] = []
         required_hook = getattr(
             processor.__class__, "get_required_external_parameters", None
@@ -769,12 +781,13 @@ def build_pipeline_inspection(
             created_keys.add(node.context_key)
             key_origin[node.context_key] = index
 
-        # Update key origin tracking for all created keys
+        # Update key origin tracking for all created keys: the origin of a key is
+        # the node that wrote it last.
         for key in created_keys:
             if key in deleted_keys:
                 # Key is being recreated after deletion
                 deleted_keys.remove(key)
-            key_origin.setdefault(key, index)
+            key_origin[key] = index
         all_created_keys.update(created_keys)
 
         # Analyze context key suppression/deletion
@@ -784,7 +797,9 @@ def build_pipeline_inspection(
             deleted_keys.update(suppressed_keys)
 
         # Validate parameter availability against deleted keys
-        missing_deleted = (required_params & deleted_keys) - suppressed_keys
+        # Parameters are resolved before the node runs: a key deleted by an earlier
+        # node is gone, whether or not this node would delete it again.
+        missing_deleted = required_params & deleted_at_entry
         if missing_deleted - set(config_params.keys()):
             node_errors.append(
                 f"Node {index} requires context keys previously deleted: {sorted(missing_deleted)}"
@@ -828,9 +843,19 @@ def build_pipeline_inspection(
                 node_inspection.preprocessor_view = view
         inspection_nodes.append(node_inspection)
 
-    # Calculate pipeline-level required context keys
-    # These are parameters required by nodes but not created by any node
-    required_context_keys = all_required_params - all_created_keys
+    # A key the initial context must supply is present from the first node on. A
+    # defaulted parameter of that name is therefore resolved from the context
+    # (origin: initial context) until some node deletes the key, even when the
+    # node that makes the key required comes later in the pipeline.
+    gone: set[str] = set()
+    for node_inspection in inspection_nodes:
+        for name in list(node_inspection.default_params):
+            if name in required_context_keys and name not in gone:
+                node_inspection.default_params.pop(name)
+                node_inspection.config_params.pop(name, None)
+                node_inspection.context_params[name] = None
+        gone |= node_inspection.suppressed_keys
+        gone -= node_inspection.created_keys
 
     return PipelineInspection(
         nodes=inspection_nodes,
